@@ -95,6 +95,14 @@ BUILT = {
    'Trusts the harness emitters (self-checked by the independent decoders for the style variants). Integral-valued floats are excluded (JSON cannot mark them); TOML layers are map-rooted and null-free, without date/time literals.',
    'TLA+ format-free resolver/evaluator + TLC bounded model over all format assignments with replay + trace validation of recorded runs', '6 C04'),
 }
+# the evaluator families also carry their share of the pair universe of MC_Eval
+PAIR_NOTE = (' The family also holds its share of the PAIR universe of MC_Eval: 18 feature fragments (every reference form, both $repeat forms, both $output markers, '
+             'both $encode forms, a template, $required, $value, an escape, $delete, a stray repeat variable, plain containers) meet each other as siblings, nested, next to a reference, '
+             'as two layers of one key and across two stream documents, under eleven kinds of upper layer, and in triples in the deeper bound; the library must agree with the specification on each.')
+for _k in ('C06', 'C07', 'C10', 'C11', 'C12', 'C13', 'C14'):
+    _t = BUILT[_k]
+    BUILT[_k] = (_t[0], _t[1] + PAIR_NOTE) + tuple(_t[2:])
+
 PENDING = 'check not built yet (work in progress; DESIGN.md section 6 describes the planned decision procedure)'
 
 checks, na = [], []
